@@ -231,6 +231,19 @@ pub fn build_response(spec: &RespSpec) -> ResponseBox {
             .with_status_code(StatusCode(spec.status))
             .boxed(),
         Ctor::Empty => Response::empty(StatusCode(spec.status)).boxed(),
+        Ctor::FromFile => {
+            // a real file (the file system is not part of what is simulated): unlinked at once
+            use std::sync::atomic::{AtomicU64, Ordering};
+            static N: AtomicU64 = AtomicU64::new(0);
+            let dir = std::env::temp_dir();
+            let path = dir.join(format!("dst-body-{}-{}", std::process::id(), N.fetch_add(1, Ordering::Relaxed)));
+            std::fs::write(&path, &spec.body.0).expect("temp file");
+            let f = std::fs::File::open(&path).expect("temp file open");
+            let _ = std::fs::remove_file(&path);
+            Response::from_file(f)
+                .with_status_code(StatusCode(spec.status))
+                .boxed()
+        }
         Ctor::New => {
             let hs: Vec<Header> = spec
                 .headers
